@@ -143,7 +143,15 @@ class SphinxRenderer(DocutilsRenderer):
             _, path_str = self.sphinx_env.relfn2path(path_dest, self.sphinx_env.docname)
             potential_path = Path(path_str)
 
-        if potential_path and potential_path.is_file():
+        is_file = False
+        if potential_path:
+            try:
+                is_file = potential_path.is_file()
+            except OSError:
+                # e.g. the destination is too long to be a file name
+                is_file = False
+
+        if is_file:
             docname = self.sphinx_env.path2doc(str(potential_path))
             if docname:
                 wrap_node = addnodes.pending_xref(
